@@ -1,5 +1,9 @@
 // C16 — history harness.  One request per input line:
 //     <class> <event> <event> ...            events:  cN:P  construct object N with parameter set P
+//     (<class> may be A&B&C: several classes alive in ONE process; slot N then holds an object of the (N mod k)-th class; copies,
+//      assignments, swaps and moves stay inside a class: N = M mod k)
+//                                                     wN:M  std::swap(N, M)
+//                                                     mN:M  N = std::move(M)   (M stays alive with an unspecified value: it is not compared any more)
 //                                                     kN:M  N := copy-constructed from M
 //                                                     aN:M  N = M   (N == M: self-assignment)
 //                                                     sN:P  re-parameterise N in place to parameter set P (setPrimes / read(istream&))
@@ -31,13 +35,18 @@ static void run_history(const std::string& line, bool verbose, FILE* out) {
     is >> cls;
     fprintf(out, "%s", cls.c_str()); fflush(out);
     Any* obj[8]; for (int i = 0; i < 8; ++i) obj[i] = 0;
-    if (!known_class(cls)) { fprintf(out, " | X unknown-class\n"); return; }      // (no object is built here: the history decides which construction is the first of the process)
+    std::vector<std::string> cl; { size_t a = 0; for (;;) { size_t b = cls.find('&', a); cl.push_back(cls.substr(a, b == std::string::npos ? b : b - a)); if (b == std::string::npos) break; a = b + 1; } }
+    for (size_t i = 0; i < cl.size(); ++i)
+        if (!known_class(cl[i])) { fprintf(out, " | X unknown-class\n"); return; }      // (no object is built here: the history decides which construction is the first of the process)
     while (is >> ev) {
         char k = ev[0]; int n = ev[1] - '0'; int m = ev.size() > 3 ? atoi(ev.c_str() + 3) : 0;
-        if (k == 'c') { obj[n] = make(cls, m & 3, m >> 2); if (!obj[n]) { fprintf(out, " | X no-such-constructor\n"); fflush(out); return; } }
+        const std::string& ocl = cl[(size_t)n % cl.size()];
+        if (k == 'c') { obj[n] = make(ocl, m & 3, m >> 2); if (!obj[n]) { fprintf(out, " | X no-such-constructor\n"); fflush(out); return; } }
         else if (k == 'k') obj[n] = obj[m]->copy();
         else if (k == 'a') obj[n]->assign(*obj[m]);
-        else if (k == 's') { if (!mutate(cls, obj[n], m)) { fprintf(out, " | X no-mutator\n"); return; } }
+        else if (k == 'w') obj[n]->swap_with(*obj[m]);
+        else if (k == 'm') obj[n]->move_from(*obj[m]);
+        else if (k == 's') { if (!mutate(ocl, obj[n], m)) { fprintf(out, " | X no-mutator\n"); return; } }
         else if (k == 'u') { }          // one more round of probes (below): matters for caches / statics
         else if (k == 'd') { g_args_note.erase(obj[n]); delete obj[n]; obj[n] = 0; }
         fprintf(out, " | %s", ev.c_str());
@@ -58,14 +67,14 @@ int main(int argc, char** argv) {
     bool nofork = getenv("C16_NOFORK") != 0;
     std::string line;
     std::map<std::string, int> abnormal;        // per class: children that crashed; after 4 the class is skipped (time)
-    std::map<std::string, int> expired;         // per class: children stopped by the watchdog; afterwards the class is skipped by this dispatcher (inconclusive)
+    std::map<std::string, int> expired;         // per class: children stopped by the watchdog; every history still gets a fresh child until 4 of a class have expired in this dispatcher (then the rest is skipped, inconclusive: a real hang would otherwise cost 20 s of CPU per history)
     int cpu_limit = env_int("C16_CPU_LIMIT", 20), wall_limit = env_int("C16_WALL_LIMIT", 900);
     while (std::getline(std::cin, line)) {
         if (line.empty()) continue;
         if (nofork) { run_history(line, verbose, stdout); continue; }
         std::string cls = line.substr(0, line.find(' '));
         if (abnormal[cls] >= 4) { printf("%s | X skipped-after-repeated-crashes\n", cls.c_str()); fflush(stdout); continue; }
-        if (expired[cls] >= 1) { printf("%s | X skipped-after-watchdog\n", cls.c_str()); fflush(stdout); continue; }
+        if (expired[cls] >= 4) { printf("%s | X skipped-after-watchdog\n", cls.c_str()); fflush(stdout); continue; }
         fflush(stdout);
         pid_t pid = fork();
         if (pid == 0) {
